@@ -448,6 +448,7 @@ def oracle_c15(rows):
         # (acct, child) -> identity of the output: (coinbase?, value) — key and value fix the
         # commitment; which account a record is booked under is bookkeeping (C04), not identity
         ever = {}
+        replaced = {}  # key -> identities of coinbase candidates replaced under the caller-named-key exception
         excused = {}   # acct -> paths below this index were handed out by a wallet since lost
         prev = None
         for idx, s in enumerate(r["steps"]):
@@ -463,18 +464,26 @@ def oracle_c15(rows):
                 ever = {}
                 prev = None
             child = {c[0]: c[1] for c in snap["child"]}
-            po = {(o["acct"], o["child"]): o for o in prev["outputs"]} if prev else {}
+            # the record under the plain DB key (no PMMR index) is the one a caller-named coinbase replaces
+            po = {(o["acct"], o["child"]): o for o in prev["outputs"] if o["mmr"] is None} if prev else {}
             for o in snap["outputs"]:
                 key = (o["acct"], o["child"])
                 ident = (o["cb"], o["value"])
                 if (o["mmr"] is None or s["op"]["k"] == "restore") and o["child"] >= child.get(o["acct"], 0):
                     fails.append(_fail(r, idx, "key %s not below the next-child counter %s" % (key, child.get(o["acct"], 0))))
-                if key in ever and ever[key] != ident and o["child"] >= excused.get(o["acct"], 0):
+                if key in ever and ever[key] != ident and ident not in replaced.get(key, ()) \
+                        and o["child"] >= excused.get(o["acct"], 0):
                     old = po.get(key)
                     candidate = o["cb"] and ever[key][0] and (old is None or old["status"] == 0)
-                    if not candidate:
+                    if candidate:
+                        # the exception: a coinbase naming the still-unconfirmed candidate it replaces. The
+                        # replaced candidate may have been mined already without the wallet having looked:
+                        # a scan brings it back under the same path — it is the same output as before
+                        replaced.setdefault(key, set()).add(ever[key])
+                    else:
                         fails.append(_fail(r, idx, "derivation path %s reused: was %s, now %s" % (key, ever[key], ident)))
-                ever[key] = ident
+                if ident not in replaced.get(key, ()):
+                    ever[key] = ident
             prev = snap
     return fails
 
